@@ -57,6 +57,7 @@ type Case struct {
 	Relation string `json:"relation"` // offset scale indirection operator
 	// SheetSameSize, SheetNewRenderer (with Sheet): the earlier tile has the size of the target
 	// rectangle; the second tile is drawn by a new Renderer holding the same rasteriser.
+	SheetOtherImage  bool `json:"sheet_other_image,omitempty"`
 	SheetSameSize    bool `json:"sheet_same_size,omitempty"`
 	SheetNewRenderer bool `json:"sheet_new_renderer,omitempty"`
 	// Window (offset relation): 0 the destination is the whole larger image; 1 a sub-image of it
@@ -208,6 +209,20 @@ func checkPixels(c Case) error {
 			}).SubImage(image.Rect(target.Min.X, big.Min.Y, target.Max.X, big.Max.Y)).(draw.Image)
 		}
 		z := newRast(c, img)
+		if c.Sheet && c.Window == 0 && c.SheetOtherImage {
+			// the rasteriser drew into another image first and is then pointed at this one
+			// through its Dst field
+			other := newImage(c.Alpha, image.Rect(500, 400, 500+c.W, 400+c.H), prefill)
+			z = newRast(c, other)
+			var r0 render.Renderer
+			r0.SetRasterizer(z, other.Bounds())
+			r0.Reset(gen.VB(vb), pal)
+			r0.StartPath(0, vb[0], vb[1])
+			r0.AbsLineTo(vb[2], vb[1])
+			r0.AbsLineTo(vb[2], vb[3])
+			r0.ClosePathEndPath()
+			z.Dst = img
+		}
 		if c.Sheet && c.Window == 0 {
 			// an earlier tile with the same Renderer and rasteriser, then the sheet is wiped again
 			var r render.Renderer
@@ -351,6 +366,11 @@ var subPix = harness.Define("pixels", "graphics with moderate coordinates (1-4 p
 func coord(t *rapid.T, l string) float32 { return gen.Moderate(t, l, 40) }
 
 func genFill(t *rapid.T, indirect bool) Fill {
+	if rapid.IntRange(0, 11).Draw(t, "nostops") == 0 {
+		// a gradient value naming no or one stop: never drawn, and without effect on what follows
+		bits := spec.GradientBits{NStops: uint8(rapid.IntRange(0, 1).Draw(t, "nostops.n")), CBase: 8, NBase: 8, Spread: uint8(rapid.IntRange(0, 3).Draw(t, "nostops.spread")), Radial: rapid.Bool().Draw(t, "nostops.radial")}
+		return Fill{Gradient: true, Block: []ops.Op{ops.OpSetCSel(5), ops.OpSetCReg(0, false, ops.RGBAv(spec.EncodeGradientBits(bits)))}}
+	}
 	if rapid.IntRange(0, 3).Draw(t, "grad") == 0 {
 		blk, g := gen.GradientBlock(t, func(t *rapid.T, l string) [6]float32 {
 			m := gen.SimpleMatrix(t, l)
@@ -488,6 +508,7 @@ func genCase(t *rapid.T) Case {
 	}
 	c.Sheet = rapid.IntRange(0, 2).Draw(t, "sheet") == 0
 	c.SheetSameSize = rapid.Bool().Draw(t, "sheetsame")
+	c.SheetOtherImage = rapid.IntRange(0, 2).Draw(t, "sheetother") == 0
 	c.SheetNewRenderer = rapid.Bool().Draw(t, "sheetnewr")
 	c.K = rapid.IntRange(-10, 10).Draw(t, "k")
 	if c.K == 0 {
